@@ -582,6 +582,15 @@ def pureE (L : Layout) (σ : SrcSt) : GExpr → Byte
   | .bin l op r => op.apply (pureE L σ l) (pureE L σ r)
   | .sh e left k => shVal left k (pureE L σ e)
 
+/-- a 16-bit variable against a 16-bit operand for (in)equality (stage 14), as the code computes it: the low bytes are
+    subtracted into the scratch cell, the high bytes with the borrow into the accumulator; "different" = one of the two
+    is not zero. Returns (different?, state left) -/
+def wcmpRun (L : Layout) (m : SrcSt) (s : String) (w : WA) : Bool × SrcSt :=
+  let lr := lowRes .sub (m.mem.read (L s)) (val L m.mem m.x m.y w.lo)
+  let m1 := setTmp L m lr.1
+  let hi := highRes .sub lr.2 (val L m1.mem m1.x m1.y (hiCell s)) (val L m1.mem m1.x m1.y w.hi)
+  ((hi != 0) || (m1.mem.read (L "cctmp") != 0), m1)
+
 /-- a tree whose code writes nothing the source can see: no spill, no push, no register operand through the scratch
     cell (stage 12: such trees may be operands of comparisons) -/
 def quietE : ES → GExpr → Bool
